@@ -41,8 +41,12 @@ func (bc *Config) Backoff(attempt uint) time.Duration {
 		return bc.BaseDelay
 	}
 	backoff, max := float64(bc.BaseDelay), float64(bc.MaxDelay)
-	backoff *= math.Pow(bc.Multiplier, float64(attempt))
-	backoff = math.Min(backoff, max)
+	if backoff > 0 {
+		// A zero base delay stays zero; multiplying it by an overflowed
+		// (+Inf) power would yield NaN and a negative duration.
+		backoff *= math.Pow(bc.Multiplier, float64(attempt))
+		backoff = math.Min(backoff, max)
+	}
 	// Randomize the backoff delay
 	r := rand.New(rand.NewSource(time.Now().UnixNano()))
 	backoff *= 1 + bc.Jitter*(r.Float64()*2-1)
